@@ -81,6 +81,7 @@
 #include <string.h>
 #include <errno.h>
 #include <stdbool.h>
+#include <stdint.h>
 #include "qinternal.h"
 #include "containers/qvector.h"
 
@@ -318,6 +319,19 @@ bool qvector_addat(qvector_t *vector, int index, const void *data) {
         return false;
     }
 
+    // the new element may be one of the vector's own elements (a pointer
+    // handed out by getat(..., false)): remember where it is, because the
+    // buffer may move for the growth and the tail is shifted before the copy.
+    bool owndata = false;
+    size_t ownoffset = 0;
+    if (vector->data != NULL
+        && (uintptr_t) data >= (uintptr_t) vector->data
+        && (uintptr_t) data < (uintptr_t) vector->data
+                              + vector->num * vector->objsize) {
+        owndata = true;
+        ownoffset = (uintptr_t) data - (uintptr_t) vector->data;
+    }
+
     //check whether the vector is full
     if (vector->num >= vector->max) {
         size_t newmax = vector->max + 1;
@@ -344,6 +358,14 @@ bool qvector_addat(qvector_t *vector, int index, const void *data) {
         void *src = (unsigned char *)vector->data + vector->objsize * (i - 1);
 
         memcpy(dst, src, vector->objsize);
+    }
+
+    if (owndata) {
+        // elements from the insertion point on have moved up by one slot
+        if (ownoffset >= (size_t) index * vector->objsize) {
+            ownoffset += vector->objsize;
+        }
+        data = (unsigned char *) vector->data + ownoffset;
     }
 
     void *add = (unsigned char *)vector->data + index * vector->objsize;
